@@ -65,13 +65,20 @@ def run(prog, check):
     # ---- W -----------------------------------------------------------------------------------------
     who_may_write(prog, check, 'C01.W', cash)
     fx_writers = 0
+    from ..dataflow import single_assign_subst, resolve_expr
     for f in prog.all_functions():
+        fsub = None
         for c in ast.walk(f.node):
-            if isinstance(c, ast.Call) and call_name(c) == 'AddTerm' and isinstance(c.func.value, ast.Subscript) and \
-                    'EquationBlock' in unparse(c.func.value.value) and 'NET_' in unparse(c.func.value.slice):
+            recv = c.func.value if (isinstance(c, ast.Call) and call_name(c) == 'AddTerm' and isinstance(c.func, ast.Attribute)) else None
+            if isinstance(recv, ast.Name):
+                # an equation object held in a local
+                fsub = fsub if fsub is not None else single_assign_subst(f.node)
+                recv = resolve_expr(recv, fsub)
+            if recv is not None and isinstance(recv, ast.Subscript) and \
+                    'EquationBlock' in unparse(recv.value) and 'NET_' in unparse(recv.slice):
                 ok = f.cls is not None and f.cls.name == 'ForexTransations' and f.name in ('_SendMoney', '_ReceiveMoney')
                 fx_writers += 1
-                check.ob('C01.W', '%s::writes-FX(%s)' % (f.key, unparse(c.func.value.slice)), ok, '%s:%d' % (f.module.rel, c.lineno),
+                check.ob('C01.W', '%s::writes-FX(%s)' % (f.key, unparse(recv.slice)), ok, '%s:%d' % (f.module.rel, c.lineno),
                          'FX primitive' if ok else 'the FX position is written outside the two FX primitives', 'any cross-currency flow')
             if isinstance(c, ast.Call) and call_name(c) in ('AddVariable', 'SetEquationRightHandSide', 'AddTermToEquation') and c.args and \
                     isinstance(c.args[0], (ast.BinOp, ast.Constant)) and 'NET_' in unparse(c.args[0]) and len(c.args) >= 2:
